@@ -275,6 +275,14 @@ def arc_lerp(repo, res):
     want = ["self.center_vertices", "self.right_vertices", "self.left_vertices"]
     seen = []
     for i, (e, arrname) in enumerate(zip(elts[:3], want)):
+        # a point bound to a local first is read through its one definition
+        for _ in range(4):
+            if isinstance(e, ast.Name):
+                ds_ = list(rd.defs(e.id, rets[0]))
+                if len(ds_) == 1 and ds_[0].kind == "assign" and isinstance(ds_[0].node, (ast.BinOp, ast.Name)):
+                    e = ds_[0].node
+                    continue
+            break
         # single-return helpers are inlined; the index / ratio locals are kept as names
         e = ast.parse(canon(e, None, None, [sp], hp), mode="eval").body
         lp = is_lerp(e, rd, rets[0])
